@@ -168,11 +168,85 @@ fn c20_order_by_slices() -> i32 {
     else { println!("VIOLATION reproduced: {} ({} of {n} queries disagree)", bad[0].chars().take(600).collect::<String>(), bad.len()); 1 }
 }
 
+/// C23 stand-in (bounded): the laws of the property over a fixed set of literals of every kind - integers at the
+/// 64-bit boundaries, floats (both zeros, infinities via 1e308*10), strings, booleans, lists (nested, with a null
+/// element, of different lengths), maps (with a null value, with different key sets) and null - evaluated through
+/// `RETURN <expr>`.  No expected values are written down: only the laws are checked.  For every pair (a, b):
+/// symmetry of =; a < b is b > a; a <= b is b >= a; whenever a < b and a = b are both non-null: a <= b is
+/// (a < b OR a = b), a >= b is (a > b OR a = b), and exactly one of a < b, a = b, a > b is true; null propagates
+/// through =, <, + ; for every null-free value a = a is true; = is transitive on the null-free values.
+fn c23_value_laws() -> i32 {
+    let d = tmpdir("c23laws");
+    let db = match Db::open(d.join("t.ndb")) { Ok(d) => d, Err(e) => { println!("cannot open db: {e}"); return 2; } };
+    // (literal, contains a null somewhere)
+    let vals: Vec<(&str, bool)> = vec![
+        ("0", false), ("1", false), ("-1", false), ("9223372036854775807", false), ("(-9223372036854775807 - 1)", false), ("9007199254740993", false),
+        ("0.0", false), ("-0.0", false), ("1.0", false), ("9007199254740992.0", false), ("9.223372036854775807e18", false), ("(1.0e308 * 10.0)", false), ("(-1.0e308 * 10.0)", false), ("0.5", false),
+        ("''", false), ("'a'", false), ("'ab'", false), ("'b'", false), ("'2024-01-01'", false),
+        ("true", false), ("false", false),
+        ("[]", false), ("[1]", false), ("[1, 2]", false), ("[1, 3]", false), ("[1.0, 2]", false), ("[[1], 'a']", false), ("[1, null]", true), ("[null]", true),
+        ("{a: 1}", false), ("{a: 1.0}", false), ("{a: 2}", false), ("{b: 1}", false), ("{a: 1, b: 2}", false), ("{a: null}", true),
+        ("null", true),
+    ];
+    let mut bad: Vec<String> = Vec::new();
+    let mut n = 0usize;
+    let ev = |e: &str| -> Result<T, String> { one(&db, &format!("RETURN {e} AS r")).and_then(|v| as_t(&v)) };
+    let n_vals = vals.len();
+    let mut eq = vec![vec![None; n_vals]; n_vals];
+    for (i, (a, an)) in vals.iter().enumerate() {
+        for (j, (b, bn)) in vals.iter().enumerate() {
+            let r = (|| -> Result<(), String> {
+                let e = ev(&format!("{a} = {b}"))?; let e2 = ev(&format!("{b} = {a}"))?;
+                let lt = ev(&format!("{a} < {b}"))?; let gt = ev(&format!("{a} > {b}"))?; let le = ev(&format!("{a} <= {b}"))?; let ge = ev(&format!("{a} >= {b}"))?;
+                let gt_sw = ev(&format!("{b} > {a}"))?; let ge_sw = ev(&format!("{b} >= {a}"))?;
+                eq[i][j] = e;
+                if e != e2 { return Err(format!("= is not symmetric: {a} = {b} is {}, {b} = {a} is {}", lit(e), lit(e2))); }
+                if lt != gt_sw { return Err(format!("{a} < {b} is {} but {b} > {a} is {}", lit(lt), lit(gt_sw))); }
+                if le != ge_sw { return Err(format!("{a} <= {b} is {} but {b} >= {a} is {}", lit(le), lit(ge_sw))); }
+                if let (Some(l), Some(q), Some(g)) = (lt, e, gt) {
+                    if [l, q, g].iter().filter(|x| **x).count() != 1 { return Err(format!("not exactly one of <, =, > holds for {a}, {b}: < {l}, = {q}, > {g}")); }
+                    if le != Some(l || q) { return Err(format!("{a} <= {b} is {} but (< OR =) is {}", lit(le), l || q)); }
+                    if ge != Some(g || q) { return Err(format!("{a} >= {b} is {} but (> OR =) is {}", lit(ge), g || q)); }
+                }
+                if *a == "null" || *b == "null" {
+                    if e.is_some() || lt.is_some() || le.is_some() || gt.is_some() || ge.is_some() { return Err(format!("null does not propagate through a comparison of {a} and {b}")); }
+                }
+                if i == j && !an && !bn && e != Some(true) { return Err(format!("{a} = {a} is {}", lit(e))); }
+                Ok(())
+            })();
+            n += 8;
+            if let Err(m) = r { bad.push(m); }
+        }
+    }
+    // transitivity of = on the null-free values
+    for i in 0..n_vals { for j in 0..n_vals { for k in 0..n_vals {
+        if vals[i].1 || vals[j].1 || vals[k].1 { continue; }
+        if eq[i][j] == Some(true) && eq[j][k] == Some(true) && eq[i][k] != Some(true) { bad.push(format!("= is not transitive: {} = {} and {} = {} but {} = {} is {}", vals[i].0, vals[j].0, vals[j].0, vals[k].0, vals[i].0, vals[k].0, lit(eq[i][k]))); }
+    } } }
+    // null through arithmetic; the overflow rule is the same for every operator spelling
+    for e in ["null + 1", "1 + null", "null * 2", "null - 1", "1 / null", "null % 2", "-(null)"] {
+        n += 1;
+        match one(&db, &format!("RETURN {e} AS r")) { Ok(Value::Null) => {} Ok(v) => bad.push(format!("`{e}` is {:?}, not null", v)), Err(m) => bad.push(m) }
+    }
+    for (e1, e2) in [("9223372036854775807 + 1", "1 + 9223372036854775807"), ("(-9223372036854775807 - 1) - 1", "(-9223372036854775807 - 2)"), ("4611686018427387904 * 2", "2 * 4611686018427387904"), ("9223372036854775807 + 1", "9223372036854775806 + 2")] {
+        n += 1;
+        match (one(&db, &format!("RETURN {e1} AS r")), one(&db, &format!("RETURN {e2} AS r"))) {
+            (Ok(a), Ok(b)) => if format!("{:?}", a) != format!("{:?}", b) { bad.push(format!("overflow rule differs: `{e1}` is {:?}, `{e2}` is {:?}", a, b)) },
+            (a, b) => bad.push(format!("overflowing arithmetic failed: `{e1}` -> {:?}, `{e2}` -> {:?}", a, b)),
+        }
+    }
+    drop(db);
+    let _ = std::fs::remove_dir_all(&d);
+    if bad.is_empty() { println!("conforms: {n} comparisons and arithmetic expressions over {n_vals} literals of every kind obey the laws"); 0 }
+    else { println!("VIOLATION reproduced: {} ({} law instances fail)", bad[0].chars().take(500).collect::<String>(), bad.len()); 1 }
+}
+
 fn main() {
     let a: Vec<String> = std::env::args().collect();
     let code = match a.get(1).map(|s| s.as_str()) {
         Some("c23_truth_tables") => c23_truth_tables(),
         Some("c20_order_by_slices") => c20_order_by_slices(),
+        Some("c23_value_laws") => c23_value_laws(),
         _ => { eprintln!("unknown scenario"); 2 }
     };
     std::process::exit(code);
